@@ -496,6 +496,11 @@ func (ed *errDisc) checkSite(c *ssa.Call) errSiteResult {
 	for _, ck := range checks {
 		q := &PathQuery{Fn: fn}
 		handledBarrier := func(ins ssa.Instruction) bool {
+			if ins == ssa.Instruction(c) {
+				// the same call is executed again (retry loop): this failure is
+				// superseded by the new attempt, whose own failure edge is checked
+				return true
+			}
 			switch x := ins.(type) {
 			case *ssa.Send:
 				return ed.derivesFromAlias(x.X, al)
@@ -572,12 +577,6 @@ func (ed *errDisc) checkSite(c *ssa.Call) errSiteResult {
 				k := ed.p.classifyReturn(r, via)
 				if k == retError {
 					return false
-				}
-				if k == retMaybe && !isNilConst(op) {
-					// some other error value (e.g. a different call's result): not a silent success
-					if _, isPhi := op.(*ssa.Phi); !isPhi {
-						return false
-					}
 				}
 			}
 			return true
